@@ -2,8 +2,10 @@
 //!
 //! usage: vp <check> [--tier quick|thorough] [--seed N] [--shard i/n] [--out file] [--replay file]
 
+mod c01;
 mod c04;
 mod c05;
+mod c06;
 mod c09;
 mod c10;
 mod c13;
@@ -15,6 +17,7 @@ mod node;
 mod refbmca;
 mod refcodec;
 mod report;
+mod sim;
 
 use report::Report;
 
@@ -75,8 +78,10 @@ fn main() {
                 std::process::exit(2);
             }
         },
+        "c01" => c01::run(&mut rep, &tier, seed, shard, replay.as_deref()),
         "c04" => c04::run(&mut rep, &tier, seed, shard, replay.as_deref()),
         "c05" => c05::run(&mut rep, &tier, seed, shard, replay.as_deref()),
+        "c06" => c06::run(&mut rep, &tier, seed, shard, replay.as_deref()),
         "c09" => c09::run(&mut rep, &tier, seed, shard, replay.as_deref()),
         "c10" => c10::run(&mut rep, &tier, seed, shard, replay.as_deref()),
         "c13" => c13::run(&mut rep, &tier, seed, shard, replay.as_deref()),
